@@ -375,6 +375,41 @@ pub fn oracle_c18(_cfg: &EwCfg, tr: &EwTrace, n_raw: usize) -> Vec<Violation> {
 }
 
 // ------------------------------------------------------------------------------------------------
+// C13 at the endpoints: the ceiling a Client / RemoteClient really works with is negotiated in the handshake
+// ------------------------------------------------------------------------------------------------
+
+/// Every pair of emission instants of the data / ack / sync datagrams of a connection (handshake and disconnect frames belong to no
+/// established connection and are not counted) against min(own max_send_rate, peer max_receive_rate) * (dt + RTT estimate) + 1472.
+pub fn oracle_c13_ew(cfg: &EwCfg, tr: &EwTrace) -> Vec<Violation> {
+    let mut out = Vec::new();
+    for i in 0..cfg.clients.len() {
+        for dir in 0..2usize {
+            let c = if dir == 0 { cfg.clients[i].max_send_rate.min(cfg.server.max_receive_rate) } else { cfg.server.max_send_rate.min(cfg.clients[i].max_receive_rate) } as f64;
+            let (src, dst) = if dir == 0 { (caddr(i), saddr()) } else { (saddr(), caddr(i)) };
+            let ems: Vec<&Dgram> = tr.wire.iter().filter(|d| !d.injected && d.src == src && d.dst == dst && matches!(d.frame, Some(Frame::DataFrame(_)) | Some(Frame::AckFrame(_)) | Some(Frame::SyncFrame(_)))).collect();
+            if ems.is_empty() { continue; }
+            let rtt_at = |round: usize| -> f64 { tr.obs.iter().filter(|o| o.round <= round).last().and_then(|o| if dir == 0 { o.c_rtt.get(i).copied().flatten() } else { o.s_rtt.get(i).copied().flatten() }).unwrap_or(0.0) };
+            // a datagram is collected from the wire at the start of the round after the step that sent it: its emission time is that step's
+            let t_sent = |d: &Dgram| -> u64 { tr.obs.iter().find(|o| o.round == d.sent_round).map_or(d.t_ms, |o| o.t_ms) };
+            let rtts: Vec<f64> = ems.iter().map(|d| rtt_at(d.sent_round).max(rtt_at(d.sent_round.saturating_sub(1)))).collect();
+            'outer: for a in 0..ems.len() {
+                let mut bytes = 0usize; let mut rtt_max = 0.0f64;
+                for b in a..ems.len() {
+                    bytes += ems[b].bytes.len(); if rtts[b] > rtt_max { rtt_max = rtts[b]; }
+                    let dt = (t_sent(ems[b]) - t_sent(ems[a])) as f64 / 1000.0;
+                    let bound = c * (dt + rtt_max) + 1472.0 + 1.0;
+                    if bytes as f64 > bound {
+                        out.push(viol("C13.interval", format!("C13.interval:endpoint:{}", if dir == 0 { "client" } else { "server" }), format!("{} {} put {} bytes of data / ack / sync frames on the wire between t={} ms and t={} ms; bound min(own max_send_rate, peer max_receive_rate) * (dt + RTT) + 1472 = {} * ({:.3} + {:.3}) + 1472 = {:.0}", if dir == 0 { "client" } else { "server towards client" }, i, bytes, t_sent(ems[a]), t_sent(ems[b]), c, dt, rtt_max, bound)));
+                        break 'outer;
+                    }
+                }
+            }
+        }
+    }
+    out
+}
+
+// ------------------------------------------------------------------------------------------------
 // C10: timeouts
 // ------------------------------------------------------------------------------------------------
 
